@@ -112,8 +112,13 @@ class SsbGraphMinimizer:
                     ins = g.incident(v, IN)
                     if len(ins) == 1:
                         iv = g.es[ins[0]].source_vertex
-                        # (not if the label is the entry point of the routine: nothing would lead to the jump anymore)
-                        if isinstance(iv["op"], SsbLabel) and iv.index != 0:
+                        # (not if the label is the entry point of the routine: nothing would lead to the jump anymore,
+                        # and not if other routines jump to the label: it has to be written)
+                        if (
+                            isinstance(iv["op"], SsbLabel)
+                            and iv.index != 0
+                            and not iv["op"].referenced_from_other_routine
+                        ):
                             # IS JUMP AND BEFORE IS LABEL:
                             vs_to_delete += self._optimize_paths__jump_after_label(g, jump=v, label=iv)
             g.delete_vertices(vs_to_delete)
